@@ -177,6 +177,16 @@ def run_case(draw):
             seen_int = True
         kept.append(o)
     ops = kept
+    # an operation that looks at a column written by an earlier remap
+    for i, o in enumerate(list(ops)):
+        if o["op"]["operation"] == "remap_columns" and draw(st.booleans()) and len(ops) < 5:
+            dest = o["op"]["parameters"]["destination_columns"][0]
+            follow = draw(st.sampled_from([
+                op("factor_column", {"column_name": dest, "factor_values": ["m00", "n/a"]}),
+                op("remove_rows", {"column_name": dest, "remove_values": ["n/a"]}),
+                op("remove_rows", {"column_name": dest, "remove_values": ["m00", "m10"]})]))
+            ops.insert(i + 1, {"op": follow, "feats": []})
+            break
     need = set()
     for o in ops:
         need |= needed_columns(o["op"])
@@ -608,5 +618,5 @@ def describe(case):
 
 def parts(tier):
     q = tier == "quick"
-    return [Part("run", oracle_run, strategy=run_case(), n=1000 if q else 48000, describe=describe),
+    return [Part("run", oracle_run, strategy=run_case(), n=1600 if q else 48000, describe=describe),
             Part("invalid", oracle_invalid, strategy=invalid_case(), n=300 if q else 8000, describe=describe)]
